@@ -1,5 +1,6 @@
 import NeatviVerif.Drive.Vi
 import NeatviVerif.Spec.Motion
+import NeatviVerif.Drive.ExSpec
 /-! Reference judgement of the vi motions (C07) on the implementation's boundary dumps. -/
 namespace Neatvi.Drive.ViSpec
 open Neatvi Neatvi.Drive Neatvi.Drive.ViD Neatvi.Spec Neatvi.Spec.Motion
@@ -151,13 +152,158 @@ def judge07 (c : Case) : List String × Nat :=
   let j := go (bs.length + 1) 0 j0
   (j.errs, j.judged)
 
+/-! ### C13: searching, judged with whole-line matching -/
+structure J13 where
+  pat : Option Bytes := none      -- the current search pattern (`none`: unknown)
+  dir : Int := 0
+  soset : Bool := false
+  so : Int := 0
+  errs : List String := []
+  judged : Nat := 0
+  found : Nat := 0
+
+/-- byte offset of character `k` of a line (its length if beyond) -/
+def byteOfChar (l : Bytes) (k : Nat) : Nat := match Uc.ucChr l k with | some b => b | none => l.length
+
+/-- successive matches on a line: each search starts after the previous match (one byte further after an
+empty one); `whole` judges every match against the whole line, otherwise against the suffix it starts in -/
+def successive (t : Regex.RNode) (line : Bytes) (icase whole : Bool) : Nat → Nat → List (Nat × Nat)
+  | 0, _ => []
+  | f + 1, off =>
+    if off > line.length then [] else
+    let m : Option (Nat × Nat) :=
+      if whole then (ExSpec.matchFrom t line icase off).map (fun r => (r.1, r.2.1))
+      else
+        let env : RegexSem.Env := ⟨line.drop off, ExSpec.refFlags icase (off != 0)⟩
+        ((RegexSem.starts (line.drop off) (line.length + 2) 0).findSome? (fun i =>
+          match RegexSem.results env t (i, List.replicate 128 (-1)) with
+          | [] => none
+          | r :: _ => some (off + i, off + r.1)))
+    match m with
+    | none => []
+    | some (so, eo) =>
+      let nxt := if eo > so then eo else eo + 1
+      (so, eo) :: (if nxt ≥ line.length || line.getD nxt 0 == 10 then [] else successive t line icase whole f nxt)
+
+/-- one search step from (row, off) in direction dir: (row, char offset, char length) -/
+def searchRef (t : Regex.RNode) (ls : List Bytes) (icase whole : Bool) (dir : Int) (r0 o0 : Nat) : Option (Nat × Nat × Nat) :=
+  let charOff (l : Bytes) (b : Nat) : Nat := Uc.ucOff l b
+  let onRow (r : Nat) : Option (Nat × Nat × Nat) :=
+    let l := ls.getD r []
+    if dir > 0 then
+      let from_ := if r == r0 then byteOfChar l (o0 + 1) else 0
+      if r == r0 && from_ ≥ l.length then none else
+      let m := if whole then (ExSpec.matchFrom t l icase from_).map (fun x => (x.1, x.2.1))
+               else (successive t l icase false 1 from_).head?
+      m.map (fun (so, eo) => (r, charOff l so, charOff (l.drop so) (eo - so)))
+    else
+      let all := successive t l icase whole (l.length + 2) 0
+      let ok := all.filter (fun (so, _) => r != r0 || charOff l so < o0)
+      -- the scan of the implementation stops at the first match at or after the cursor
+      let ok := if r == r0 then all.takeWhile (fun (so, _) => charOff l so < o0) else ok
+      ok.getLast?.map (fun (so, eo) => (r, charOff l so, charOff (l.drop so) (eo - so)))
+  let rows := if dir > 0 then (List.range ls.length).filter (· ≥ r0) else ((List.range ls.length).filter (· ≤ r0)).reverse
+  rows.findSome? onRow
+
+/-- a counted search: `cnt` steps; after each but the last step of a typed `/` the offset moves past the match -/
+def searchN (t : Regex.RNode) (ls : List Bytes) (icase whole : Bool) (dir : Int) (slash : Bool) : Nat → Nat → Nat → Nat → Option (Nat × Nat)
+  | 0, _, r, o => some (r, o)
+  | k + 1, i, r, o =>
+    match searchRef t ls icase whole dir r o with
+    | none => none
+    | some (r', o', len) => if k == 0 then some (r', o') else searchN t ls icase whole dir slash k (i + 1) r' (if slash then o' + len else o')
+
+def plainKeys (ks : Bytes) : Bool := ks.all (fun c => c ≥ 32 && c != 127)
+
+def judge13Step (j : J13) (a b : Bd) (ks : Bytes) : J13 :=
+  let digits := if (ks.headD 0) ≥ 49 && (ks.headD 0) ≤ 57 then ks.takeWhile (fun c => 48 ≤ c && c ≤ 57) else []
+  let rest := ks.drop digits.length
+  let cnt := if digits.isEmpty then 1 else max 1 (digits.foldl (fun n d => n * 10 + (d - 48)) 0)
+  let cmd := rest.headD 0
+  let ls := ExSpec.linesOf a.text
+  let unknown : J13 := { j with pat := none }
+  -- establish the pattern / direction this command uses
+  let st : Option (J13 × Int × Bool) :=
+    if (cmd == 47 || cmd == 63) && rest.getLast? == some 10 && plainKeys (rest.dropLast) then
+      let (re, tail) := Ex.reRead (rest.dropLast)
+      match re with
+      | none => none
+      | some re =>
+        let tail := tail.dropWhile Ex.isSpaceC
+        let j := { j with dir := if cmd == 47 then 1 else -1, soset := !tail.isEmpty, so := Ex.atoi tail,
+                          pat := if re.isEmpty then j.pat else some re }
+        some (j, j.dir, cmd == 47)
+    else if (cmd == 110 || cmd == 78) && rest.length == 1 then
+      some (j, if cmd == 78 then -j.dir else j.dir, false)
+    else none
+  match st with
+  | none => if a.text == b.text && (ks.all (fun c => c != 47 && c != 63 && c != 1 && c != 58)) then j else unknown
+  | some (j, dir, slash) =>
+    match j.pat with
+    | none => j
+    | some pat =>
+      if dir == 0 || ls.isEmpty then j else
+      match ExSpec.refTree pat with
+      | none => j
+      | some t =>
+        let r0 := a.xrow.toNat; let o0 := a.xoff.toNat
+        let land (res : Option (Nat × Nat)) : Nat × Nat :=
+          match res with
+          | none => (r0, o0)
+          | some (r, o) =>
+            if j.soset then
+              let r' : Int := (r : Int) + j.so
+              if r' < 0 || r' ≥ ls.length then (r0, o0)
+              else
+                let l := ls.getD r'.toNat []
+                let ind := (l.takeWhile (fun c => c == 32 || c == 9)).length
+                (r'.toNat, min ind ((Uc.ucSlen l) - 2))
+            else
+              let l := ls.getD r []
+              (r, min o (Uc.ucSlen l - 2))
+        let want := land (searchN t ls true true dir slash cnt 0 r0 o0)
+        let wantSuffix := land (searchN t ls true false dir slash cnt 0 r0 o0)
+        let got : Nat × Nat := (b.xrow.toNat, b.xoff.toNat)
+        let errs := if want == got then j.errs else
+          j.errs ++ [s!"clause=search_lands_on_reference_match cause={if wantSuffix == got then "match_judged_on_suffix" else "other"} keys={bytesHex ks} pat={bytesHex pat} dir={dir} from={r0},{o0} want={want.1},{want.2} got={got.1},{got.2}"]
+        let errs := if a.text == b.text then errs else errs ++ [s!"clause=search_keeps_text keys={bytesHex ks}"]
+        { j with errs := errs, judged := j.judged + 1, found := j.found + (if want != (r0, o0) then 1 else 0) }
+
+def judge13 (c : Case) : List String × Nat × Nat :=
+  let bs := c.impl.filter (·.mark == "B")
+  let rec go : Nat → Nat → J13 → J13
+    | 0, _, j => j
+    | f + 1, i, j =>
+      match bs[i]?, bs[i + 1]? with
+      | some a, some b => go f (i + 1) (judge13Step j a.bd b.bd ((c.keys.drop a.bd.kpos).take (b.bd.kpos - a.bd.kpos)))
+      | _, _ => j
+  let j := go (bs.length + 1) 0 {}
+  (j.errs, j.judged, j.found)
+
+/-! ### C09: '.', 'N.' and '@r' against retyping (two runs of the implementation) -/
+def lastBd (res : String) : Option ImplBd :=
+  ((parseImpl res).filter (fun r => r.mark == "B" || r.mark == "E")).getLast?
+
+def judge09 (kv : KV) : Verdict :=
+  let a := lastBd (kv.get "resA")
+  let b := lastBd (kv.get "resB")
+  let mac := hexBytes (kv.get "macro")
+  -- a '.' inside the macro that is followed by further keys
+  let dotInside := (List.range mac.length).any (fun i => mac.getD i 0 == 46 && i + 1 < mac.length)
+  match a, b with
+  | some a, some b =>
+    let d := diffBd 0 { a.bd with kpos := 0, xtop := 0, xleft := 0 } { b.bd with kpos := 0, xtop := 0, xleft := 0 }
+    let sf := d.map (fun x => s!"clause=repeat_equals_retyping cause={if dotInside then "dot_inside_macro_queued_after_rest" else "other"} keysA={kv.get "keysA"} keysB={kv.get "keysB"} {(x.take 200).toString} (impl = with . or @, model = retyped)")
+    { specfails := sf, nontrivial := a.bd.text != hexBytes (kv.get "file"), tags := if kv.get "macro" != "" then ["macro"] else ["dot"] }
+  | _, _ => { bad := some "missing result" }
+
 /-- the stream judge: model correspondence plus the property's reference judgement -/
 def judge (mode : Nat) (kv : KV) : Verdict :=
   let base := ViD.judge 0 kv
   let c := parseCase kv
   if c.crashed then base else
-  let (errs, n) := if mode == 7 then judge07 c else ([], 0)
+  let (errs, n, m) := if mode == 7 then (let (e, n) := judge07 c; (e, n, 0)) else if mode == 13 then judge13 c else ([], 0, 0)
   { base with specfails := (errs.take 3).map (fun s => (s.take 400).toString),
-              tags := base.tags ++ (List.replicate n "judged") }
+              tags := base.tags ++ (List.replicate n "judged") ++ (List.replicate m "found") }
 
 end Neatvi.Drive.ViSpec
